@@ -19,6 +19,28 @@ from .common import Evidence, Verdicts, run_tlc, pmap, seed
 PROP = "C12"
 
 
+def share_name(t):
+    """a fragment that carries the operation's name (separate name spaces: the document stays as valid as it was),
+    moved in front of the operation"""
+    m = re.search(r"fragment (F\d+) on", t)
+    if not m:
+        return t
+    t = re.sub(r"\b%s\b" % m.group(1), "Q", t)
+    fm = re.search(r" fragment Q on \w+ \{", t)
+    if fm:
+        # cut the fragment definition (balanced braces) and put it first
+        i = fm.start()
+        j = t.index("{", i)
+        depth = 0
+        for k in range(j, len(t)):
+            depth += t[k] == "{"
+            depth -= t[k] == "}"
+            if depth == 0:
+                break
+        t = t[i:k + 1].strip() + " " + t[:i] + t[k + 1:]
+    return t
+
+
 def mutate_doc(text, rnd):
     ops = [
         lambda t: re.sub(r"\b(x|y|s|a|b)\b", "nope", t, count=1),                                  # unknown field
@@ -34,6 +56,7 @@ def mutate_doc(text, rnd):
         lambda t: t + " query Q { __typename }",                                                   # duplicate operation name
         lambda t: re.sub(r"\b(o|on|i|u) \{[^{}]*\}", r"\1", t, count=1),                            # composite without selection
         lambda t: re.sub(r"\b(a|b|s)\b(?! *[:(])", r"\1 { x }", t, count=1),                        # leaf with selection
+        share_name, share_name,
     ]
     for _ in range(rnd.choice([1, 1, 2])):
         t2 = rnd.choice(ops)(text)
@@ -74,6 +97,8 @@ def _chunk(jobs):
             text = gqlmini.render_doc(case)
             if kind == "mutant":
                 text = mutate_doc(text, rnd)
+            elif rnd.random() < 0.5:
+                text = share_name(text)
         try:
             doc = parse(text)
         except GraphQLError:
@@ -128,7 +153,7 @@ def _chunk(jobs):
 def run(tier: str, rd):
     ev = Evidence(PROP, tier)
     vd = Verdicts(PROP)
-    n = 400 if tier == "quick" else 4000
+    n = 1200 if tier == "quick" else 8000
     base = seed() * 1000000 + 1200000
     jobs = [(base + k, ["valid", "mutant", "mutant", "random"][k % 4]) for k in range(n)]
     recs = []
